@@ -421,14 +421,22 @@ class Session:
         elif kind == 'REBUILD':
             seed, R, adv = a
             kw = bool(adv % 2)      # the seed handed over as a constructor keyword / in the Parameters object
-            r1 = self.make(seed, R, keep=False, seed_as_kwarg=kw)
+            so = bool((adv // 2) % 2)     # objects with a likelihood / for simulation only
+            r1 = self.make(seed, R, keep=False, seed_as_kwarg=kw, sim_only=so)
             np.random.random(adv)
-            r2 = self.make(seed, R, keep=False, seed_as_kwarg=kw)
-            l1, l2 = self.ll(r1, 1), self.ll(r2, 1)
+            r2 = self.make(seed, R, keep=False, seed_as_kwarg=kw, sim_only=so)
+            if so:
+                bt_ = self.betas_at(1)
+                l1, l2 = [[float(v_) for v_ in r_['b'].simulate({n_: bt_[n_] for n_ in r_['b'].free_beta_names})['p'].to_list()]
+                          for r_ in (r1, r2)]
+                ctx.probe('reconstruction of a simulation-only object with the same non-zero seed')
+            else:
+                l1, l2 = self.ll(r1, 1), self.ll(r2, 1)
             if l1 != l2:
-                ctx.fail('I10.seed', f'two constructions with seed {seed} give likelihoods {l1!r} and {l2!r}')
+                ctx.fail('I10.seed', f'two constructions with seed {seed} give {"simulated values" if so else "likelihoods"} '
+                                     f'{l1!r} and {l2!r}')
             ctx.probe('reconstruction with the same non-zero seed')
-            ctx.log(kind, seed, R, fhex(l1))
+            ctx.log(kind, seed, R, fhex(l1 if not so else l1[0]))
         elif kind == 'REREGISTER':
             # the user registers ANOTHER generator under a name already used: from now on that one produces the series
             ver = a[0]
@@ -566,7 +574,7 @@ class Session:
             raise RuntimeError(kind)
         ctx.state([kind, len(self.objects)])
 
-    def make(self, seed, R, keep=True, seed_as_kwarg=False):
+    def make(self, seed, R, keep=True, seed_as_kwarg=False, sim_only=False):
         import biogeme.biogeme as bio
         import biogeme.expressions as ex
         from biogeme.parameters import Parameters
@@ -581,6 +589,9 @@ class Session:
         mc = ex.MonteCarlo(inner)
         self.calls.clear()
         forms = {'log_like': ex.log(mc), 'p': mc}
+        if sim_only:
+            # an object meant for simulation only: no likelihood among its formulas
+            forms = {'p': mc}
         if (seed + R) % 4 < 2:
             # a formula without draws listed after the Monte-Carlo ones (the object still needs its draws)
             forms['det'] = ex.Variable('x0') * 2 + 1
